@@ -127,10 +127,11 @@ class Optimizer:
         """True if no implicit trivia can be matched directly in `rule`'s body."""
         if "WHITESPACE" not in rules and "COMMENT" not in rules:
             return True
+        # The fused SKIP rule is SILENT | ATOMIC; a grammar rule that happens
+        # to be called SKIP is atomic only if its modifier says so.
         return bool(rule.modifier & (ATOMIC | COMPOUND)) or rule.name in (
             "WHITESPACE",
             "COMMENT",
-            "SKIP",
         )
 
     def _optimize_skip_rule(self, rules: MutableMapping[str, Rule]) -> None:
